@@ -217,3 +217,10 @@ def write_file_key(vc):
     hexbody = "".join(s.getvalue().split("\n")[2:])
     want = layout.bf3_binary([layout.Comp([(0xC3, b"\x02")], b"firmware-bytes!", 15, False)], key)
     vc.prove("written-binary=layout-under-THIS-key", bytes.fromhex(hexbody) == want)
+
+
+# BEC2 header layout: pack_auth_blocks == BigConcat(BE1(tag) BE1(len) value) + 00 00 for any number of blocks
+# (the loop contract of C07, an obligation of the layout property too)
+from pyvc.harness import reuse as _reuse
+from contracts import C07 as _C07x
+_reuse("C07/pack_auth_blocks", "C03/pack_auth_blocks.header=TLVs+0000")
